@@ -101,7 +101,7 @@ def main():
     hooks = subprocess.run(["git", "-C", "/repo", "log", "--format=%h %s", "--grep", "^verif hook"], capture_output=True, text=True).stdout.strip().splitlines()
     m = {
       "version": 1,
-      "setup_cmd": "cd /verif/sim && CARGO_NET_OFFLINE=true cargo build --release --offline --workspace",
+      "setup_cmd": "cd /verif/sim && CARGO_NET_OFFLINE=true cargo build --release --offline --workspace && CARGO_NET_OFFLINE=true CARGO_TARGET_DIR=/verif/sim/target-zstd cargo build --release --offline -p sim --features zstd",
       "hooks": {
         "guard": "--cfg searchlite_verif",
         "enable": "RUSTFLAGS=\"--cfg searchlite_verif\" (set in /verif/sim/.cargo/config.toml; the simulator crates depend on /repo/searchlite-* by path, so every check rebuilds from /repo's working tree)",
